@@ -1,8 +1,18 @@
-"""C02 — scheduler family; shared stream in sched.py"""
-import common, sched
+"""C02 — scheduler family; shared stream in sched.py (fresh runs) + a retry-run stream (c02_retry.py): C02's end-of-run
+clauses read off the final state of retry runs (NewExecutionGraphForRetry + Schedule on recorded vectors)"""
+import json
+import common, sched, c02_retry
 
 PROP = "C02"
 
 
+def _is_retry_replay(replay):
+    rc = json.load(open(replay)).get("case", {})
+    c = rc.get("case", rc) if isinstance(rc, dict) else {}
+    return isinstance(c, dict) and bool(c.get("init"))
+
+
 def run(chk, replay):
     sched.run_property(chk, PROP, replay)
+    if not replay or _is_retry_replay(replay):
+        c02_retry.stream(chk, replay)
